@@ -279,6 +279,50 @@ theorem player_ids_fresh (w : World) (t : Rat) (es : List Ev) :
             rw [this, List.range'_succ]
             simp
 
+/-- An event object played again and again (itself or copies of it): every play creates a new node,
+    the ids of all its `/s_new` are consecutive allocator ids, each used once. -/
+theorem replay_ids_fresh (w : World) (e : Ev) (t : Rat) (ds : List Rat) :
+    sNewIds (playTimes w e t ds).1 =
+      (List.range' w.nextId ((playTimes w e t ds).2.1.nextId - w.nextId)).map
+        (fun (i : Nat) => Arg.n (.q (i : Rat))) ∧
+    w.nextId ≤ (playTimes w e t ds).2.1.nextId := by
+  induction ds generalizing w t with
+  | nil =>
+    simp only [playTimes]
+    rcases hn : playNote w t e with ⟨m1, w1, raised⟩
+    have hids := playNote_ids w t e
+    rw [hn] at hids
+    simp only at hids ⊢
+    rcases hids with ⟨h1, h2⟩ | ⟨h1, h2⟩
+    · simp [h1, h2]
+    · simp [h1, h2, List.range'_one]
+  | cons d ds ih =>
+    simp only [playTimes]
+    rcases hn : playNote w t e with ⟨m1, w1, raised⟩
+    have hids := playNote_ids w t e
+    rw [hn] at hids
+    simp only at hids
+    cases raised with
+    | true =>
+      simp only
+      rcases hids with ⟨h1, h2⟩ | ⟨h1, h2⟩
+      · simp [h1, h2]
+      · simp [h1, h2, List.range'_one]
+    | false =>
+      obtain ⟨ih1, ih2⟩ := ih w1 (t + d)
+      rcases hpa : playTimes w1 e (t + d) ds with ⟨ms, w', t', died⟩
+      rw [hpa] at ih1 ih2
+      simp only at ih1 ih2
+      simp only [hpa]
+      rcases hids with ⟨h1, h2⟩ | ⟨h1, h2⟩
+      · rw [sNewIds_append, h1, ih1, h2]
+        exact ⟨by simp, by omega⟩
+      · rw [sNewIds_append, h1, ih1, h2]
+        refine ⟨?_, by omega⟩
+        have : w'.nextId - w.nextId = (w'.nextId - (w.nextId + 1)) + 1 := by omega
+        rw [this, List.range'_succ]
+        simp
+
 /-! ## Parallel and duration-limiting patterns -/
 
 /-- MAIN (Ppar): whatever the other children do, the events of child `i` appear in the merged
